@@ -278,6 +278,14 @@ fn main() {
         println!("{}", mem::cold_child(&input));
         return;
     }
+    if args[1] == "c20-env" {
+        use std::io::Read;
+        let mut input = Vec::new();
+        std::io::stdin().read_to_end(&mut input).expect("harness: read stdin");
+        front::install_quiet_panic_hook();
+        println!("{}", restart::env_child(args.get(2).map(|s| &s[..]).unwrap_or("stack"), input));
+        return;
+    }
     if let Err(e) = model::self_test() {
         exec::harness_error(e);
     }
